@@ -125,12 +125,42 @@ func buildFromDefinition(def *configDefinition, lc *loaderContext) (cfg *Config,
 		}
 	}
 
+	for k, g := range cfg.Pipelines {
+		err = checkPipelineInclusion(k, g, make(map[*scheduler.ExecutionGraph]bool))
+		if err != nil {
+			return nil, err
+		}
+	}
+
 	cfg.Import = def.Import
 	cfg.Debug = def.Debug
 	cfg.Output = def.Output
 	cfg.Variables = cfg.Variables.Merge(variables.FromMap(def.Variables))
 
 	return cfg, nil
+}
+
+// checkPipelineInclusion fails if pipeline includes itself, directly or through other pipelines.
+// path holds pipelines that are being walked through at the moment
+func checkPipelineInclusion(name string, g *scheduler.ExecutionGraph, path map[*scheduler.ExecutionGraph]bool) error {
+	if path[g] {
+		return fmt.Errorf("pipeline %s includes itself", name)
+	}
+	path[g] = true
+	defer delete(path, g)
+
+	for _, stage := range g.Nodes() {
+		if stage.Pipeline == nil {
+			continue
+		}
+
+		err := checkPipelineInclusion(name, stage.Pipeline, path)
+		if err != nil {
+			return err
+		}
+	}
+
+	return nil
 }
 
 func defaultConfigVariables() variables.Container {
